@@ -21,11 +21,13 @@ def same(a, b):
         return False
     if a.dtype.hasobject:
         return all(x == y for x, y in zip(a.ravel(), b.ravel()))
+    if a.dtype.itemsize == 0:
+        return True  # no element bytes: memory order has no meaning (numpy reports arbitrary contiguity flags with all strides 0)
     return a.tobytes() == np.asarray(b).tobytes() and (a.flags.f_contiguous and not a.flags.c_contiguous) == (b.flags.f_contiguous and not b.flags.c_contiguous)
 
 
 def arrays(np, rnd):
-    dtypes = ["u1", "<i4", ">i4", "<f8", ">f8", "c16", "?", "S3", "U2", "M8[s]", [("a", "<i2"), ("b", ">f4")], "O"]
+    dtypes = ["u1", "<i4", ">i4", "<f8", ">f8", "c16", "?", "S3", "U2", "M8[s]", [("a", "<i2"), ("b", ">f4")], "O", "V0", []]
     shapes = [(), (0,), (1,), (7,), (3, 4), (2, 0, 3), (2, 3, 4)]
     for dt, sh in itertools.product(dtypes, shapes):
         n = int(np.prod(sh)) if sh else 1
@@ -34,6 +36,8 @@ def arrays(np, rnd):
             base = np.empty(n, dtype=object)
             for i in range(n):
                 base[i] = ("o", i)
+        elif dt == "V0" or dt == []:
+            base = np.zeros(n, dtype=np.dtype(dt))  # item size 0 (was K9)
         elif isinstance(dt, list):
             base = np.zeros(n, dtype=dt)
             base["a"] = np.arange(n)
